@@ -216,6 +216,12 @@ impl Mach {
         self.dirty.push(a);
     }
 
+    /// Mark `a` as written by the case (no pre-check): restored to pristine by `restore()`.
+    #[inline]
+    pub fn mark_dirty(&mut self, a: u32) {
+        self.dirty.push(a);
+    }
+
     /// After the step: make the shadow agree with the accepted content of `a`.
     #[inline]
     pub fn accept(&mut self, a: u32) {
